@@ -38,6 +38,9 @@ Definition with_docs_w (c : coll) (d : list (value * value)) : coll :=
   mkColl d (idx c) true (next_oid c) (now c) (odocs c).
 Definition with_idx (c : coll) (i : list index) : coll :=
   mkColl (docs c) i (forced c) (next_oid c) (now c) (odocs c).
+(* CollectionStore.create_index: creating an index also marks the collection as existing *)
+Definition with_idx_w (c : coll) (i : list index) : coll :=
+  mkColl (docs c) i true (next_oid c) (now c) (odocs c).
 
 (* ---------------------------------------------------------------- store primitives *)
 (* keys are compared like Python dict keys: hash-consistent == (1 == 1.0 == True;
@@ -741,9 +744,9 @@ Definition create_index (c : coll) (key : list (string * value)) (unique sparse 
         let tuples := flat_map (fun kd => match index_tuple i (snd kd) with
                                           | Some t => [t] | None => [] end) (docs c1) in
         if has_dup_tuple tuples then (c1, Err EDup)
-        else (with_idx c1 (set_index i (idx c1)), Ok (VStr nm))
+        else (with_idx_w c1 (set_index i (idx c1)), Ok (VStr nm))
     end
-  else (with_idx c (set_index i (idx c)), Ok (VStr nm)).
+  else (with_idx_w c (set_index i (idx c)), Ok (VStr nm)).
 
 Definition drop_index (c : coll) (name : string) : coll * res value :=
   match expire c with
